@@ -160,3 +160,266 @@ Proof.
               HI1 Hwfr Hdr Hser Hrem Hlim) as (e & x & sf & Hrun & F1 & F2).
   exists e, x, sf. split; [exact Hrun|]. rewrite F1, F2. exact (inv_msgs _ _ _ _ _ _ _ HI1).
 Qed.
+
+(* ================================================================ D. data_prog on a truncated input *)
+
+(* D1. the cut falls after the file_id records: I/O error, File = the routed messages of the completed records *)
+Theorem data_prog_partial_file :
+  forall o h g l be fds (devflag : bool) (devs : list (N * N * N)) pay dev rest r cut rem ss1 ss2 f2 g1 t lim,
+  let rs := RDef l be c_MesgNumFileId fds devflag devs :: RData l pay dev :: rest in
+  stream_wf rs = true -> denote rs = Some ss1 ->
+  start_file h g (hd dummy_msg (ss_msgs ss1)) = Some (f2, g1) ->
+  rec_wf r = true -> denote_record ss1 r = Some ss2 ->
+  ser_record r = cut ++ rem -> rem <> [] ->
+  (List.length (ser_records rs ++ cut) < lim)%nat ->
+  exists e x sf f g',
+    run_a (data_prog o false (S lim)) (mk_ast (ser_records rs ++ cut) t 0 lim) (init_dstate (new_file h) g) = RIOErr e x sf /\
+    route_msgs h g (ss_msgs ss1) = Some (f, g') /\ ds_file sf = f /\ ds_g sf = g'.
+Proof.
+  intros o h g l be fds devflag devs pay dev rest r cut rem ss1 ss2 f2 g1 t lim rs
+         Hwf Hden Hstart Hwfr Hdr Hser Hrem Hlim.
+  set (r1 := RDef l be c_MesgNumFileId fds devflag devs) in *. set (r2 := RData l pay dev) in *.
+  unfold rs in *. cbn [stream_wf forallb] in Hwf.
+  apply andb_prop in Hwf. destruct Hwf as [Hwf1 Hwf]. apply andb_prop in Hwf. destruct Hwf as [Hwf2 Hwf].
+  fold (stream_wf rest) in Hwf.
+  unfold denote in Hden.
+  change (r1 :: r2 :: rest) with ([r1; r2] ++ rest) in Hden.
+  rewrite denote_from_app in Hden. destruct (denote_from ss_init [r1; r2]) as [ssb|] eqn:Eb; [|discriminate].
+  destruct (denote_from_msgs _ _ _ Hden) as [ms Hms].
+  assert (Hhd : hd dummy_msg (ss_msgs ss1) = hd dummy_msg (ss_msgs ssb)).
+  { rewrite Hms. cbn [denote_from] in Eb.
+    destruct (denote_record ss_init r1) as [ssa|] eqn:E1; [|discriminate].
+    destruct (denote_record ssa r2) as [ssb'|] eqn:E2; [|discriminate]. inversion Eb; subst ssb'.
+    destruct (ss_msgs ssb) as [|x0 xs] eqn:Em; [|reflexivity]. exfalso.
+    unfold r1 in E1. cbn [denote_record] in E1. destruct (_ || _) in E1; [discriminate|]. inversion E1; subst ssa.
+    unfold r2 in E2. cbn [denote_record] in E2. unfold denote_data in E2. cbn [ss_env] in E2.
+    rewrite lookup_def_cons, N.eqb_refl in E2. destruct (_ || _) in E2; [discriminate|].
+    cbn [sd_gmn] in E2. rewrite known_fileid in E2.
+    destruct (mesg_all_invalid c_MesgNumFileId); [|discriminate].
+    destruct (denote_fields _ _ _ _ _ _ _) as [[m2 ref2] unl]. inversion E2; subst ssb. cbn [ss_msgs ss_init app] in Em. discriminate. }
+  rewrite Hhd in Hstart.
+  change (ser_records ([r1; r2] ++ rest)) with (ser_record r1 ++ ser_record r2 ++ ser_records rest) in *.
+  change (ser_records (r1 :: r2 :: rest)) with (ser_record r1 ++ ser_record r2 ++ ser_records rest) in *.
+  rewrite !app_length in Hlim.
+  set (n := (List.length (ser_record r1) + List.length (ser_record r2))%nat).
+  unfold data_prog.
+  assert (Hassoc : forall fuel x s,
+            run_a (bind (parse_file_id_msg o) (fun _ => bind do_init (fun _ => decode_file_data o fuel))) x s =
+            rbind (run_a (bind (parse_file_id_msg o) (fun _ => do_init)) x s)
+                  (fun _ x' s' => run_a (decode_file_data o fuel) x' s')).
+  { intros fuel x s. rewrite !run_bind. destruct (run_a (parse_file_id_msg o) x s); cbn [rbind]; try reflexivity. now rewrite run_bind. }
+  rewrite Hassoc.
+  replace (mk_ast ((ser_record r1 ++ ser_record r2 ++ ser_records rest) ++ cut) t 0 lim)
+    with (ast_at (ser_record r1 ++ ser_record r2) (ser_records rest ++ cut) t 0 lim)
+    by (unfold ast_at; now rewrite <- !app_assoc).
+  destruct (prologue_ok o h g l be fds devflag devs pay dev ssb f2 g1 (ser_records rest ++ cut) t lim
+              Hwf1 Hwf2 Eb Hstart ltac:(fold r1 r2; lia))
+    as (sb & ft & Hrun & HIb).
+  fold r1 r2 in Hrun. fold n in Hrun.
+  rewrite Hrun. cbn [rbind]. rewrite ast_at_nil.
+  assert (Hfuel : (List.length rest < S lim)%nat) by (pose proof (records_le_bytes rest); lia).
+  destruct (truncated_file rest r cut rem o _ f2 g1 ft sb ssb ss1 ss2 t n lim (S lim)
+              HIb Hwf Hden Hwfr Hdr Hser Hrem ltac:(unfold n; lia) Hfuel) as (e & x & sf & Hr & ms' & Hms' & Hadds).
+  exists e, x, sf, (ds_file sf), (ds_g sf). split; [exact Hr|]. split; [|split; reflexivity].
+  unfold route_msgs. rewrite Hms'. cbn [app]. rewrite Hstart, Hadds. reflexivity.
+Qed.
+
+(* D2. the cut falls inside the file_id definition or the file_id data record *)
+Lemma nm_file_id o : okp anyst (parse_file_id_msg o).
+Proof.
+  unfold parse_file_id_msg.
+  okp_walk (first [exact I | apply nm_data_message | apply okp_parse_def | apply nm_add_msg]).
+  all: unfold set_def; okp_walk (idtac; triv_solve).
+Qed.
+
+Lemma pfid_err_file o x s : post2 anyst (fg (ds_file s) (ds_g s)) (run_a (parse_file_id_msg o) x s).
+Proof.
+  set (f := ds_file s). set (g := ds_g s). assert (H0 : fg f g s) by (split; reflexivity).
+  unfold parse_file_id_msg.
+  eapply post2_bind with (Pok := fg f g) (Perr := fg f g); [apply (okp_sound _ _ (okp_read_byte _) x s H0)| |auto].
+  intros b x1 s1 H1. destruct (negb (N.land b c_mesgDefinitionMask =? c_mesgDefinitionMask)); [exact H1|].
+  eapply post2_bind with (Pok := fg f g) (Perr := fg f g); [apply (okp_sound _ _ (okp_parse_def _ b) x1 s1 H1)| |auto].
+  intros dm x2 s2 H2. destruct (negb (dm_gmn dm =? c_MesgNumFileId)); [exact H2|].
+  eapply post2_bind with (Pok := fg f g) (Perr := fg f g); [apply (okp_sound _ _ (okp_fg_set_def f g dm) x2 s2 H2)| |auto].
+  intros _ x3 s3 H3.
+  eapply post2_bind with (Pok := fg f g) (Perr := fg f g); [apply (okp_sound _ _ (okp_read_byte _) x3 s3 H3)| |auto].
+  intros b2 x4 s4 H4. destruct (negb (N.land b2 c_mesgHeaderMask =? c_mesgHeaderMask)); [exact H4|].
+  eapply post2_bind with (Pok := fg f g) (Perr := fg f g); [apply (okp_sound _ _ (okp_fg_data_message f g o b2 false) x4 s4 H4)| |auto].
+  intros om x5 s5 H5. destruct om as [m|]; [|exact I].
+  destruct (m_num m =? c_MesgNumFileId); [apply add_msg_post|exact H5].
+Qed.
+
+(* the file_id prologue alone on the two file_id records: success, exactly their bytes consumed; File.init then
+   succeeds on the File it leaves, giving the File the reference semantics starts from *)
+Lemma pfid_full o h g l be fds (devflag : bool) (devs : list (N * N * N)) pay dev ssb f2 g1 tl t lim :
+  let r1 := RDef l be c_MesgNumFileId fds devflag devs in
+  let r2 := RData l pay dev in
+  rec_wf r1 = true -> rec_wf r2 = true ->
+  denote_from ss_init [r1; r2] = Some ssb ->
+  start_file h g (hd dummy_msg (ss_msgs ssb)) = Some (f2, g1) ->
+  (List.length (ser_record r1) + List.length (ser_record r2) <= lim)%nat ->
+  exists s1 f ft,
+    run_a (parse_file_id_msg o) (mk_ast ((ser_record r1 ++ ser_record r2) ++ tl) t 0 lim) (init_dstate (new_file h) g) =
+      ROk tt (mk_ast tl t (List.length (ser_record r1) + List.length (ser_record r2)) lim) s1 /\
+    file_init (ds_file s1) = Some f /\
+    Inv o [hd dummy_msg (ss_msgs ssb)] f2 g1 ft (with_file s1 f (ds_g s1)) ssb.
+Proof.
+  intros r1 r2 Hwf1 Hwf2 Hden Hstart Hlim.
+  destruct (prologue_ok o h g l be fds devflag devs pay dev ssb f2 g1 tl t lim Hwf1 Hwf2 Hden Hstart Hlim) as (sb & ft & Hrun & HI).
+  fold r1 r2 in Hrun. rewrite run_bind in Hrun. unfold ast_at in Hrun. cbn [app] in Hrun.
+  destruct (run_a (parse_file_id_msg o) (mk_ast ((ser_record r1 ++ ser_record r2) ++ tl) t 0 lim) (init_dstate (new_file h) g))
+    as [a x1 s1|e x1 s1|e x1 s1|w|]; cbn [rbind] in Hrun; try discriminate.
+  unfold do_init in Hrun. rewrite run_bind in Hrun. unfold get_st in Hrun. cbn [run_a rbind] in Hrun.
+  destruct (file_init (ds_file s1)) as [f|] eqn:Ei; cbn [put_st fail run_a] in Hrun; [|discriminate].
+  injection Hrun as -> <-. destruct a. exists s1, f, ft. split; [reflexivity|]. split; [exact Ei|exact HI].
+Qed.
+
+Lemma prologue_trunc o h g l be fds (devflag : bool) (devs : list (N * N * N)) pay dev ssb f2 g1 cutp more t lim :
+  let r1 := RDef l be c_MesgNumFileId fds devflag devs in
+  let r2 := RData l pay dev in
+  rec_wf r1 = true -> rec_wf r2 = true ->
+  denote_from ss_init [r1; r2] = Some ssb ->
+  start_file h g (hd dummy_msg (ss_msgs ssb)) = Some (f2, g1) ->
+  ser_record r1 ++ ser_record r2 = cutp ++ more -> more <> [] ->
+  (List.length (ser_record r1) + List.length (ser_record r2) <= lim)%nat ->
+  exists e x sf, run_a (parse_file_id_msg o) (mk_ast cutp t 0 lim) (init_dstate (new_file h) g) = RIOErr e x sf /\
+                 ds_file sf = new_file h /\ ds_g sf = g.
+Proof.
+  intros r1 r2 Hwf1 Hwf2 Hden Hstart Hsplit Hmore Hlim.
+  destruct (pfid_full o h g l be fds devflag devs pay dev ssb f2 g1 [] t lim Hwf1 Hwf2 Hden Hstart Hlim) as (s1 & f & ft & Hfull & _).
+  fold r1 r2 in Hfull. rewrite app_nil_r, Hsplit in Hfull.
+  pose proof (run_ext (parse_file_id_msg o) (nm_file_id o) (mk_ast cutp t 0 lim) (init_dstate (new_file h) g) more lim (le_n _)) as He.
+  unfold ext_x in He. cbn [a_rest a_term a_n] in He. rewrite Hfull in He.
+  pose proof (run_a_no_fuel (parse_file_id_msg o) (mk_ast cutp t 0 lim) (init_dstate (new_file h) g)) as Hnf.
+  pose proof (pfid_err_file o (mk_ast cutp t 0 lim) (init_dstate (new_file h) g)) as Hfile.
+  destruct (run_a (parse_file_id_msg o) (mk_ast cutp t 0 lim) (init_dstate (new_file h) g)) as [a x' s'|e x' s'|e x' s'|w|];
+    try discriminate; try (exfalso; now apply Hnf).
+  - exfalso. injection He as _ Hr _ _. symmetry in Hr. apply app_eq_nil in Hr. destruct Hr as [_ Hr]. contradiction.
+  - cbn [post2] in Hfile. destruct Hfile as [F1 F2]. exists e, x', s'. split; [reflexivity|]. split; assumption.
+Qed.
+
+(* ================================================================ E. the entry points over any reader *)
+Lemma crc_a_short c t crc f : (List.length c < 2)%nat -> crc_a c t crc f = (Some EFileCRCRead, f, List.length c).
+Proof. intros H. unfold crc_a, rf_err. destruct (Nat.leb_spec 2 (List.length c)); [lia|reflexivity]. Qed.
+
+Lemma finalize_slots o s : f_slots (finalize_unknown o s) = f_slots (ds_file s) /\
+  f_inited (finalize_unknown o s) = f_inited (ds_file s) /\ f_header (finalize_unknown o s) = f_header (ds_file s) /\
+  f_crc (finalize_unknown o s) = f_crc (ds_file s).
+Proof. unfold finalize_unknown. cbn [f_slots f_inited f_header f_crc]. repeat split. Qed.
+
+(* E1. partial_files, the main region: the input ends (cleanly, or by a read fault: rd_term is arbitrary) inside
+   record r, after the records rs, which begin with the file_id definition and data record.  Decode returns an I/O
+   error together with a File holding exactly the routed messages of rs. *)
+Theorem Decode_partial_file :
+  forall o g rd fuel h l be fds (devflag : bool) (devs : list (N * N * N)) pay dev rest r cut rem ss1 ss2 f2 g1,
+  let rs := RDef l be c_MesgNumFileId fds devflag devs :: RData l pay dev :: rest in
+  header_wf h ->
+  rd_data rd = hdr_bytes h ++ ser_records rs ++ cut ->
+  (List.length (ser_records rs ++ cut) < N.to_nat (h_dsize h))%nat ->
+  stream_wf rs = true -> denote rs = Some ss1 ->
+  start_file h g (hd dummy_msg (ss_msgs ss1)) = Some (f2, g1) ->
+  rec_wf r = true -> denote_record ss1 r = Some ss2 ->
+  ser_record r = cut ++ rem -> rem <> [] ->
+  wf rd fuel ->
+  exists res e file' f g',
+    entry_Decode o g rd fuel = TDone res /\ dr_err res = Some (EIO e) /\ dr_hdr res = h /\ dr_file res = Some file' /\
+    dr_g res = g' /\
+    route_msgs h g (ss_msgs ss1) = Some (f, g') /\
+    f_slots file' = f_slots f /\ f_inited file' = f_inited f /\ f_header file' = h.
+Proof.
+  intros o g rd fuel h l be fds devflag devs pay dev rest r cut rem ss1 ss2 f2 g1 rs
+         Hwfh Hd Hlim Hwf Hden Hstart Hwfr Hdr Hser Hrem Hf.
+  destruct (data_prog_partial_file o h g l be fds devflag devs pay dev rest r cut rem ss1 ss2 f2 g1 (rd_term rd)
+              (N.to_nat (h_dsize h)) Hwf Hden Hstart Hwfr Hdr Hser Hrem Hlim) as (e & x & sf & f & g' & Hrun & Hroute & Hfile & Hg).
+  fold rs in Hrun.
+  assert (Ha : exists u, decode_a o MFull g (rd_data rd) (rd_term rd) =
+               TDone (mk_ares (Some (EIO e)) h (Some (finalize_unknown o sf)) u (ds_g sf) (ds_quirks sf) true)).
+  { rewrite Hd. unfold decode_a. rewrite (hdr_a_wf h _ _ Hwfh), (skipn_hdr h _ Hwfh). cbv beta iota zeta.
+    rewrite Hrun. eexists. reflexivity. }
+  destruct Ha as [u Ha]. unfold entry_Decode.
+  destruct (decode_of_a o MFull g rd fuel _ Hf Ha) as (res & Hres & E1 & E2 & E3 & E4 & _). cbn in E1, E2, E3, E4.
+  destruct (finalize_slots o sf) as (S1 & S2 & S3 & _).
+  exists res, e, (finalize_unknown o sf), f, g'. repeat split; try assumption; try congruence.
+  rewrite S3, Hfile. exact (route_msgs_header _ _ _ _ _ Hroute).
+Qed.
+
+(* E2. the input ends inside the file_id definition or the file_id data record: an I/O error, and a File without any
+   message (the File as created from the header: FileId is the zero value, no container) *)
+Theorem Decode_cut_in_file_id :
+  forall o md g rd fuel h l be fds (devflag : bool) (devs : list (N * N * N)) pay dev ssb f2 g1 cutp more,
+  let r1 := RDef l be c_MesgNumFileId fds devflag devs in
+  let r2 := RData l pay dev in
+  md = MFull \/ md = MFileIdOnly ->
+  header_wf h ->
+  rd_data rd = hdr_bytes h ++ cutp ->
+  ser_record r1 ++ ser_record r2 = cutp ++ more -> more <> [] ->
+  (List.length (ser_record r1) + List.length (ser_record r2) <= N.to_nat (h_dsize h))%nat ->
+  rec_wf r1 = true -> rec_wf r2 = true -> denote_from ss_init [r1; r2] = Some ssb ->
+  start_file h g (hd dummy_msg (ss_msgs ssb)) = Some (f2, g1) ->
+  wf rd fuel ->
+  exists res e file',
+    decode o md g rd fuel = TDone res /\ dr_err res = Some (EIO e) /\ dr_hdr res = h /\ dr_file res = Some file' /\
+    dr_g res = g /\ f_slots file' = f_slots (new_file h) /\ f_inited file' = None /\ f_header file' = h.
+Proof.
+  intros o md g rd fuel h l be fds devflag devs pay dev ssb f2 g1 cutp more r1 r2
+         Hmd Hwfh Hd Hsplit Hmore Hlim Hwf1 Hwf2 Hden Hstart Hf.
+  destruct (prologue_trunc o h g l be fds devflag devs pay dev ssb f2 g1 cutp more (rd_term rd) (N.to_nat (h_dsize h))
+              Hwf1 Hwf2 Hden Hstart Hsplit Hmore Hlim) as (e & x & sf & Hrun & Hfile & Hg).
+  assert (Ha : exists u, decode_a o md g (rd_data rd) (rd_term rd) =
+               TDone (mk_ares (Some (EIO e)) h (Some (finalize_unknown o sf)) u (ds_g sf) (ds_quirks sf) true)).
+  { rewrite Hd. unfold decode_a. rewrite (hdr_a_wf h _ _ Hwfh), (skipn_hdr h _ Hwfh).
+    destruct Hmd as [-> | ->]; cbv beta iota zeta; unfold data_prog; rewrite run_bind, Hrun; cbn [rbind]; eexists; reflexivity. }
+  destruct Ha as [u Ha].
+  destruct (decode_of_a o md g rd fuel _ Hf Ha) as (res & Hres & E1 & E2 & E3 & E4 & _). cbn in E1, E2, E3, E4.
+  destruct (finalize_slots o sf) as (S1 & S2 & S3 & _).
+  rewrite Hfile in S1, S2, S3. cbn [new_file f_inited f_header] in S2, S3.
+  exists res, e, (finalize_unknown o sf).
+  split; [exact Hres|]. split; [exact E1|]. split; [exact E2|]. split; [exact E3|]. split; [congruence|].
+  split; [exact S1|]. split; [exact S2|exact S3].
+Qed.
+
+(* E3. the input ends inside the two checksum bytes: all records were decoded; the error is the checksum read error
+   and the File holds the routed messages of the whole stream *)
+Theorem Decode_cut_in_crc : forall o g rd fuel h rs ss1 f2 g1 c,
+  header_wf h -> h_dsize h = N.of_nat (List.length (ser_records rs)) ->
+  starts_with_file_id rs = true -> stream_wf rs = true -> denote rs = Some ss1 ->
+  start_file h g (hd dummy_msg (ss_msgs ss1)) = Some (f2, g1) ->
+  rd_data rd = hdr_bytes h ++ ser_records rs ++ c -> (List.length c < 2)%nat ->
+  wf rd fuel ->
+  exists res file' f g',
+    entry_Decode o g rd fuel = TDone res /\ dr_err res = Some EFileCRCRead /\ dr_hdr res = h /\ dr_file res = Some file' /\
+    dr_g res = g' /\
+    route_msgs h g (ss_msgs ss1) = Some (f, g') /\
+    f_slots file' = f_slots f /\ f_inited file' = f_inited f /\ f_header file' = h.
+Proof.
+  intros o g rd fuel h rs ss1 f2 g1 c Hwfh Hsz Hs Hwf Hden Hstart Hd Hc Hf.
+  destruct (decode_denote_abstract o h g rs ss1 f2 g1 c (rd_term rd) Hs Hwf Hden Hstart)
+    as (s1 & f & g' & Hrun & Hroute & Hfile & Hg & _).
+  assert (HL : N.to_nat (h_dsize h) = List.length (ser_records rs)) by (rewrite Hsz; apply Nat2N.id).
+  assert (Ha : exists u, decode_a o MFull g (rd_data rd) (rd_term rd) =
+               TDone (mk_ares (Some EFileCRCRead) h (Some (finalize_unknown o (with_file s1 (ds_file s1) (ds_g s1)))) u
+                              (ds_g s1) (ds_quirks s1) true)).
+  { rewrite Hd. unfold decode_a. rewrite (hdr_a_wf h _ _ Hwfh), (skipn_hdr h _ Hwfh). cbv beta iota zeta.
+    rewrite HL, Hrun. cbn [a_n a_limit a_rest]. rewrite Nat.eqb_refl. cbn [negb].
+    rewrite (crc_a_short c _ _ _ Hc). cbn [fst snd]. eexists. reflexivity. }
+  destruct Ha as [u Ha]. unfold entry_Decode.
+  destruct (decode_of_a o MFull g rd fuel _ Hf Ha) as (res & Hres & E1 & E2 & E3 & E4 & _). cbn in E1, E2, E3, E4.
+  destruct (finalize_slots o (with_file s1 (ds_file s1) (ds_g s1))) as (S1 & S2 & S3 & _). cbn [with_file ds_file] in S1, S2, S3.
+  exists res, (finalize_unknown o (with_file s1 (ds_file s1) (ds_g s1))), f, g'.
+  repeat split; try assumption; try congruence.
+  rewrite S3, Hfile. exact (route_msgs_header _ _ _ _ _ Hroute).
+Qed.
+
+(* E4. the input ends inside the header: an error and no File at all *)
+Theorem decode_cut_in_header : forall o md g rd fuel h body k,
+  header_wf h -> (k < N.to_nat (h_size h))%nat -> rd_data rd = firstn k (hdr_bytes h ++ body) -> wf rd fuel ->
+  exists res e, decode o md g rd fuel = TDone res /\ dr_err res = Some e /\ dr_file res = None /\ dr_g res = g /\
+                (e = EReadSizeEOF -> k = 0%nat /\ rd_term rd = TEOF).
+Proof.
+  intros o md g rd fuel h body k Hwfh Hk Hd Hf.
+  destruct (hdr_a_cut _ TEOF _ _ _ (hdr_a_wf h body TEOF Hwfh) k (rd_term rd) Hk) as (e & h' & crc' & u' & E' & Heof).
+  assert (Ha : decode_a o md g (rd_data rd) (rd_term rd) = TDone (mk_ares (Some e) h' None u' g [] true)).
+  { rewrite Hd. unfold decode_a. rewrite E'. reflexivity. }
+  destruct (decode_of_a o md g rd fuel _ Hf Ha) as (res & Hres & E1 & E2 & E3 & E4 & _). cbn in E1, E2, E3, E4.
+  exists res, e. repeat split; try assumption. - apply Heof; assumption. - apply Heof; assumption.
+Qed.
